@@ -41,7 +41,7 @@ type opSpec struct {
 	Internal bool   `json:"internal,omitempty"`
 	Share    int    `json:"share,omitempty"`  // >0: reuse the query object of an earlier registration
 	Phases   int    `json:"phases,omitempty"` // 1 PreGet, 2 PostGet, 4 PrePut
-	Behave   [3]int `json:"behave,omitempty"` // per phase: 0 pass, 1 replace, 2 veto
+	Behave   [3]int `json:"behave,omitempty"` // per phase: 0 pass, 1 replace, 2 veto; PrePut also 3: replace with the opposite deletion state
 	Target   int    `json:"target,omitempty"` // which registration to cancel
 	// records
 	V     int  `json:"v,omitempty"`
@@ -357,6 +357,18 @@ func (h *hhook) PrePut(r record.Record) (record.Record, error) {
 		return h.replacement(r), nil
 	case 2:
 		return nil, h.vetoErr()
+	case 3:
+		// the replacement differs in its deletion state: a delete becomes the write of a live record, a write becomes a
+		// delete. What is stored and announced is the record the hook returned.
+		nr := h.replacement(r)
+		if nr != r {
+			if m := nr.Meta(); m.IsDeleted() {
+				m.Deleted = 0
+			} else {
+				m.Delete()
+			}
+		}
+		return nr, nil
 	}
 	return r, nil
 }
@@ -622,6 +634,12 @@ func (e *env) modelPrePut(k string, cur srec) (srec, error) {
 		case 2:
 			e.nVeto++
 			return cur, h.vetoErr()
+		case 3:
+			cur.S = replacedS(h.id)
+			cur.Deleted = !cur.Deleted
+			cur.TTL = 0
+			e.nReplace++
+			stats.Class("preput_hook_changed_the_deletion_state_of_the_record")
 		}
 	}
 	return cur, nil
@@ -897,6 +915,9 @@ func (e *env) exec(op opSpec) {
 		if h.phases == 0 {
 			h.phases = 4
 		}
+		if h.behave[2] == 3 && e.p.backend != beHashmap && e.p.backend != beBbolt {
+			h.behave[2] = 1 // deletion-state changes only on the plain storages (no injected database defines a delete)
+		}
 		if h.behave[0] == 1 {
 			h.behave[0] = 0 // PreGet has no record to replace
 		}
@@ -1017,7 +1038,11 @@ func (e *env) exec(op opSpec) {
 		stored, veto := e.modelPrePut(k, cur)
 		storageFails := veto == nil && e.fail[k]
 		if veto == nil && !storageFails {
-			e.store[k] = &stored
+			if stored.Deleted && !e.p.shadow {
+				delete(e.store, k) // a PrePut hook made it a delete
+			} else {
+				e.store[k] = &stored
+			}
 			e.modelNotify(k, stored)
 		}
 		if storageFails {
@@ -1067,7 +1092,7 @@ func (e *env) exec(op opSpec) {
 			// a runtime registry has no delete: the storage refuses
 			storageFails = veto == nil && (e.fail[k] || e.p.reg != nil)
 			if veto == nil && !storageFails {
-				if e.p.shadow {
+				if e.p.shadow || !stored.Deleted {
 					cp := stored
 					e.store[k] = &cp
 				} else {
@@ -1125,6 +1150,10 @@ func (e *env) wouldVetoPrePut(k string, cur srec) bool {
 			cur.S = replacedS(h.id)
 		case 2:
 			return true
+		case 3:
+			cur.S = replacedS(h.id)
+			cur.Deleted = !cur.Deleted
+			cur.TTL = 0
 		}
 	}
 	return false
